@@ -176,6 +176,30 @@ pub const EDGE_DOCS: &[&str] = &[
     r#"{"a":[1,2]}"#, r#"{"a":1}"#, r#"[[1,2],[3]]"#, r#"[[3],[1,2]]"#, r#"{"ÄB":1,"äb":2}"#, r#"{"É":1}"#, r#"[-0.0,0,0.0]"#,
 ];
 
+/// documents nested `depth` levels (arrays and objects alternating at random, a sibling now and then):
+/// depth limits, depth-indexed tables and per-level bookkeeping only show beyond the 6..14 levels of
+/// the random documents
+pub fn nested_doc(r: &mut Rng, depth: usize) -> Value<'static> {
+    let mut v: Value<'static> = match r.below(4) { 0 => Value::Null, 1 => Value::Number(Number::UInt64(r.below(1000))), 2 => Value::String(std::borrow::Cow::Borrowed("x")), _ => Value::Array(vec![]) };
+    for lvl in 0..depth {
+        v = if r.chance(1, 2) {
+            let mut xs = vec![];
+            if r.chance(1, 8) { xs.push(Value::Number(Number::UInt64(lvl as u64))); }
+            xs.push(v);
+            if r.chance(1, 8) { xs.push(Value::Bool(true)); }
+            Value::Array(xs)
+        } else {
+            let mut m = std::collections::BTreeMap::new();
+            if r.chance(1, 8) { m.insert("a".to_string(), Value::Null); }
+            m.insert("k".to_string(), v);
+            if r.chance(1, 8) { m.insert("z".to_string(), Value::String(std::borrow::Cow::Borrowed("s"))); }
+            Value::Object(m)
+        };
+    }
+    v
+}
+pub const NEST_DEPTHS: &[usize] = &[33, 66, 100, 129, 260, 520];
+
 pub fn gen_value(r: &mut Rng, cfg: &DocCfg, depth: u32) -> Value<'static> {
     if depth == 0 && r.chance(1, 14) {
         if let Ok(v) = jsonb::parse_value(r.pick(EDGE_DOCS).as_bytes()) { return v; }
